@@ -25,7 +25,7 @@ META = {
                   "id). The hook counter adlt::verif::SEND_FULL_HITS proves that the helper's Full branch ran (vacuity guard, "
                   "not a verdict). Lifecycle ids are compared up to an injective renaming built by TLC. Sorted pipelines are "
                   "only checked for permutation (the order is C10's claim; the sorter reads the lifecycle table while the "
-                  "detector still updates it). Termination is observed with a 120 s bound after eos/drop and a 300 s bound on "
+                  "detector still updates it). Termination is observed with a 120 s bound after eos/drop and a 120 s bound on "
                   "any single receive (120 s for the polling consumer styles; then a `stalled` event is recorded). The last receiver "
                   "waits in one of four styles: blocking recv, loop of short recv_timeouts, try_recv + sleep polling (0.2/1/10 ms), "
                   "mixed. Binary level: `adlt remote` is started, a 1.7 M message log is opened paused / one_pass so that the "
@@ -351,4 +351,4 @@ def check(ctx):
                        "driver projection (payload position tag, field hash) is correct",
                        "std::sync::mpsc behaves as modelled (bounded FIFO, rendezvous at capacity 0, disconnect wakes blocked senders)",
                        "real thread schedules are sampled, not enumerated",
-                       "termination bound 120 s after eos/drop, 300 s per receive, on a machine that may be loaded"]
+                       "termination bound 120 s after eos/drop, 120 s per receive, on a machine that may be loaded"]
